@@ -3,7 +3,8 @@
  * ONE explorer run enumerates MANY world tables: the table itself is chosen by a sequence of FREE
  * choice points (cost 0, labels "T:...") taken before anything else happens, so the explorer's
  * frontier = (every table of the slice named by the parameters) x (every event order / environment
- * deviation with <= D deviations inside that table).  executions_per_level[0] = number of tables.
+ * deviation with <= D deviations inside that table).  The number of tables of a slice is measured by a
+ * level-0 run with count=1 (level 0 of a normal run also holds the free event orders of each table).
  *
  * A world table = resolver answer list (1..maxlen entries over {v4a,v4b,v6a,v6b}) x policy of every
  * address that occurs (accepts / refuses / silent) x resolver behaviour (answers at once, late, fails,
@@ -12,7 +13,9 @@
  * the connection (xcm_finish / xcm_send / xcm_receive).
  *
  * params (all bit masks select the alternatives offered at the corresponding table choice point):
- *   tp=btcp|tcp|btls|tls|utls   fam=conn|cap|server
+ *   tp=btcp|tcp|btls|tls|utls   fam=conn|cap|server   (cap: total=<entries> hit=<index of the only accepting entry>;
+ *                               server: xcm_server on a name that is unknown / fails / fails late / silent / late / ok)
+ *   count=1                     table census: stop after choosing the table (level 0 = one execution per table)
  *   minlen= maxlen=             list length range
  *   naddr=4|3                   address alphabet (3: without v6b; forced with XCM servers)
  *   canon=0|1                   1: only lists in which v4b/v6b occur after v4a/v6a (renaming symmetry)
@@ -204,13 +207,8 @@ static void choose_table(const char *params)
             }
         }
     }
-    int any_silent = 0;
-    for (int a = 0; a < 4; a++)
-        if (t_used[a] && t_pol[a] == POL_SILENT)
-            any_silent = 1;
-    /* a short tcp.connect_timeout is crossed with every table (an attempt withheld by the environment
-       can reach it too) unless the slice says otherwise */
-    (void)any_silent;
+    /* a short tcp.connect_timeout is crossed with every table of the slice: an attempt withheld by the
+       environment can reach it too, not only a silent address */
     t_cto = dns_ok ? pick(ctos, 2, "T:cto") : 0;
     t_dnsto = (t_dns == DNS_LATE || t_dns == DNS_SILENT || t_dns == DNS_FAIL_LATE) ? pick(dnstos, 2, "T:dnsto") : 0;
     g_cto_ns = t_cto ? NS / 2 : 3 * NS;
